@@ -210,7 +210,7 @@ def worker(version, args):
 def run(ctx):
     R = common.Result(RULE)
     vs = bases.versions()
-    args = {"seed": ctx.seed, "driver": ctx.driver_path, "nhist": ctx.budget(4, 40), "seglen": 8 if ctx.quick else 14}
+    args = {"seed": ctx.seed, "driver": ctx.driver_path, "nhist": ctx.budget(12, 80), "seglen": 8 if ctx.quick else 14}
     per = vworker.run_versions("h_c04", "worker", vs, args)
     cc.merge_results(R, per, "C04")
     R.extra["versions"] = vs
